@@ -234,6 +234,10 @@ func oneTriplet(kd string, x tlvVal) []byte {
 	return smgp.NewOption(smgp.Tag(x.T), x.V).Bytes()
 }
 
+// callerTag is a tag no generated input contains: the caller adds it to every container a parser returns, and
+// no later parse may report it
+const callerTag = 0x7777
+
 func parseBoth(kd string, in []byte, tr *Tracer) {
 	type res struct {
 		xs  []tlvVal
@@ -247,6 +251,9 @@ func parseBoth(kd string, in []byte, tr *Tracer) {
 			for tag, v := range t {
 				xs = append(xs, tlvVal{int(tag), v.Value()})
 			}
+			if t != nil {
+				t.SetTLV(smpp.NewTLV(callerTag, []byte{9})) // the container is the caller's: what it adds stays there
+			}
 			return res{xs, err != nil}
 		}
 		fns["smpp.ReadTLVs1"] = func(b []byte) res {
@@ -255,6 +262,9 @@ func parseBoth(kd string, in []byte, tr *Tracer) {
 			var xs []tlvVal
 			for tag, v := range t {
 				xs = append(xs, tlvVal{int(tag), v.Value()})
+			}
+			if t != nil {
+				t.SetTLV(smpp.NewTLV(callerTag, []byte{9}))
 			}
 			return res{xs, rd.Error() != nil}
 		}
@@ -265,6 +275,9 @@ func parseBoth(kd string, in []byte, tr *Tracer) {
 			for tag, v := range o {
 				xs = append(xs, tlvVal{int(tag), v.Value()})
 			}
+			if o != nil {
+				o.Add(smgp.NewOption(smgp.Tag(callerTag), []byte{9}))
+			}
 			return res{xs, err != nil}
 		}
 		fns["smgp.ReadOptions"] = func(b []byte) res {
@@ -273,6 +286,9 @@ func parseBoth(kd string, in []byte, tr *Tracer) {
 			var xs []tlvVal
 			for tag, v := range o {
 				xs = append(xs, tlvVal{int(tag), v.Value()})
+			}
+			if o != nil {
+				o.Add(smgp.NewOption(smgp.Tag(callerTag), []byte{9}))
 			}
 			return res{xs, rd.Error() != nil}
 		}
